@@ -27,7 +27,9 @@ RULE = ("three scenario families chosen by the seed: (S) static output/inputs un
         "time, C01/C02 monitors active; (W) the real WeightedSum with 1-3 value/weight pairs in mixed convertible "
         "units and 1-2 consumers. non-trivial = at least 3 provider invocations / 3 static pulls; distinct = "
         "digest of the event log")
-REAL = ["Output", "Input", "CallbackOutput", "Composition", "WeightedSum", "adapters", "ConnectHelper"]
+REAL = ["Output", "Input", "CallbackOutput", "Composition", "WeightedSum", "adapters", "ConnectHelper",
+        "library family (L): CsvReader, CallbackGenerator, StaticCallbackGenerator, WeightedSum, TimeTrigger, DebugConsumer, "
+        "CsvWriter, DebugPushConsumer, ScheduleLogger"]
 STUB = ["SimComp", "SimPull", "event driver for static slots"]
 ASSUMPTIONS = ["a pull-based component serving several consumer links with a non-monotone merged request stream "
                "is the recorded finding shared-pull-component-merges-requests",
@@ -140,7 +142,7 @@ def run_static(sc):
 UNITS_W = ["m", "km", "mm", "cm"]
 
 
-def gen_wsum(tape):
+def gen_wsum(tape, pure=None):
     npairs = tape.rng_int(1, 3)
     comps, links = [], []
     ws = {"name": "ws", "kind": "wsum", "inputs": [], "outputs": [{"name": "WeightedSum", "base": 0}]}
@@ -148,14 +150,23 @@ def gen_wsum(tape):
         nm = "ABC"[k]
         ws["inputs"] += [{"name": nm}, {"name": nm + "_weight"}]
     n_prod = tape.rng_int(1, 2)
+    # generator-like pull-based sources (value = f(requested time)) can serve the merger for any time in any order:
+    # with them consumers of different speeds are served correctly, whatever order their requests arrive in
+    pure = pure if pure is not None else tape.chance(1, 3)
     for i in range(n_prod):
-        comps.append({"name": f"s{i}", "kind": "sim", "start": 0, "steps": gen_steps(tape), "inputs": [], "outputs": []})
+        if pure:
+            comps.append({"name": f"g{i}", "kind": "pull", "timefn": tape.choice([1, 2, 0.5]), "inputs": [], "outputs": []})
+        else:
+            comps.append({"name": f"s{i}", "kind": "sim", "start": 0, "steps": gen_steps(tape), "inputs": [], "outputs": []})
     comps.append(ws)
     wi = len(comps) - 1
     for ii, inp in enumerate(ws["inputs"]):
         p = tape.draw(n_prod)
         c = comps[p]
         weight = ii % 2 == 1
+        if pure and c["outputs"]:
+            # one output per generator-like source keeps its time function single valued per link
+            pass
         c["outputs"].append({"name": f"o{len(c['outputs'])}", "base": (0.5 if weight else 100.0 * (ii + 1)) ,
                              "inc": tape.choice([0.25, 0.5]) if weight else tape.choice([1, 2, 5]),
                              "units": "" if weight else tape.choice(UNITS_W)})
@@ -175,8 +186,102 @@ def gen_wsum(tape):
             "listing": tape.shuffle(list(range(len(comps)))), "link_order": tape.shuffle(list(range(len(links))))}
 
 
+# ------------------------------------------------------------------------- family G
+def gen_wsum_grid(tape):
+    """the real WeightedSum on gridded fields: value and weight producers on two layouts of one geometry (equal or
+    different), the merger with or without a grid of its own, the consumer on a third layout"""
+    from ..grids import gen_structured, relayout
+    a = gen_structured(tape, kinds=("uniform", "rectilinear"), max_dim=2, max_len=4, min_len=2, allow_degenerate=False)
+    a.pop("cast", None)
+    a.pop("relocated", None)
+    b = dict(a) if tape.chance(1, 2) else relayout(tape, a)
+    c = dict(a) if tape.chance(1, 2) else relayout(tape, a)
+    for g in (b, c):
+        g.pop("cast", None)
+    return {"engine": "G", "family": "G", "a": a, "b": b, "c": c, "ws_grid": tape.choice([None, None, "a", "b", "c"]),
+            "cstep": tape.choice([1, 2, 3]), "n": tape.rng_int(2, 5), "cons_grid": tape.chance(3, 4),
+            "listing": tape.shuffle([0, 1, 2, 3])}
+
+
+def run_wsum_grid(sc):
+    import finam as fm
+    from datetime import timedelta
+    from finam.components import CallbackGenerator, DebugConsumer, WeightedSum
+    from finam.errors import FinamMetaDataError
+    from ..grids import make_grid, MGrid
+    viol, log = [], []
+
+    def v(oracle, kind, msg):
+        viol.append({"oracle": oracle, "kind": kind, "msg": msg + f"; scenario {sc}", "comp": ""})
+
+    ga, gb, gc = make_grid(sc["a"]), make_grid(sc["b"]), make_grid(sc["c"])
+    ma, mb, mc = MGrid(sc["a"]), MGrid(sc["b"]), MGrid(sc["c"])
+    cv, cw = [3.0, 1.0, 10.0][: ma.dim + 1], [1.0, 0.5, 0.25][: ma.dim + 1]
+    fva, fwb = ma.field(cv), mb.field(cw)
+    val = CallbackGenerator({"o": (lambda t: fva + 10.0 * tick(t), fm.Info(time=None, grid=ga, units="m"))}, dt(0), timedelta(hours=1))
+    wgt = CallbackGenerator({"o": (lambda t: fwb.copy(), fm.Info(time=None, grid=gb, units=""))}, dt(0), timedelta(hours=1))
+    wsg = {None: None, "a": make_grid(sc["a"]), "b": make_grid(sc["b"]), "c": make_grid(sc["c"])}[sc["ws_grid"]]
+    ws = WeightedSum(inputs=["A"], grid=wsg)
+    got = []
+    cons = DebugConsumer({"i": fm.Info(time=None, grid=gc if sc["cons_grid"] else None, units="m")}, start=dt(0),
+                         step=timedelta(hours=sc["cstep"]),
+                         callbacks={"i": lambda n, d, t: got.append((tick(t), np.array(d.magnitude), str(d.units)))})
+    comps = [val.with_name("val"), wgt.with_name("wgt"), ws.with_name("ws"), cons.with_name("cons")]
+    composition = fm.Composition([comps[i] for i in sc["listing"]], print_log=False, log_level=50)
+    val.outputs["o"] >> ws.inputs["A"]
+    wgt.outputs["o"] >> ws.inputs["A_weight"]
+    ws.outputs["WeightedSum"] >> cons.inputs["i"]
+    status = "ok"
+    try:
+        composition.run(end_time=dt(sc["n"] * sc["cstep"]))
+    except FinamMetaDataError as e:
+        # the merger may insist on one layout for all its inputs; refusing is not delivering a wrong sum
+        status = "refused"
+        log.append(("refused", str(e)[:60]))
+    except Exception as e:      # noqa: BLE001
+        status = type(e).__name__
+        v("weighted-sum", type(e).__name__, f"composition with a gridded WeightedSum raised {type(e).__name__}: {str(e)[:300]}")
+    if status == "ok":
+        # where do the delivered cells lie?  consumer with a grid of its own: its layout; otherwise the layout the
+        # merger passes on (its own grid, else the common grid of its inputs - only defined when they are equal)
+        if sc["cons_grid"]:
+            mo = mc
+        elif sc["ws_grid"]:
+            mo = {"a": ma, "b": mb, "c": mc}[sc["ws_grid"]]
+        else:
+            mo = mb
+        fv, fw = mo.field(cv), mo.field(cw)
+        for (t, arr, units) in got:
+            want = (fv + 10.0 * t) * fw
+            log.append((t, float(arr.reshape(-1)[0])))
+            if arr.shape != (1,) + want.shape:
+                v("weighted-sum", "shape", f"consumer got shape {arr.shape} at {t}, expected {(1,) + want.shape}")
+                break
+            if not np.allclose(arr[0], want, rtol=1e-9, atol=1e-9):
+                bad = int(np.sum(~np.isclose(arr[0], want, rtol=1e-9, atol=1e-9)))
+                v("weighted-sum", "value", f"at {t}: {bad} of {want.size} cells are not value x weight of the same physical "
+                  f"cell (first cell got {arr[0].reshape(-1)[0]}, expected {want.reshape(-1)[0]})")
+                break
+        if len(got) < sc["n"]:
+            v("weighted-sum", "records", f"consumer saw {len(got)} records for {sc['n']} steps")
+    same_ab = (ma.rev, tuple(ma.inc)) == (mb.rev, tuple(mb.inc))
+    return {"violations": viol, "digest": digest_of(log + [status]), "probes": {"gridded_wsum_runs": 1, "gridded_wsum_" + status: 1,
+                                                                               "gridded_wsum_layouts_differ": int(not same_ab)},
+            "faults": {}, "nontrivial": status == "ok" and len(got) >= 2, "sig": digest_of([status, sc["ws_grid"], same_ab]),
+            "state_sigs": [], "sim_hours": sc["n"] * sc["cstep"], "cls": "G:" + status,
+            "outcome": {"family": "G", "status": status, "records": len(got)}}
+
+
 def generate(tape, tier="quick"):
-    fam = tape.weighted([("P", 5), ("S", 3), ("W", 3)])
+    fam = tape.weighted([("P", 5), ("S", 3), ("W", 3), ("L", 1), ("G", 1)])
+    if fam == "G":
+        return gen_wsum_grid(tape)
+    if fam == "L":
+        # real library components only: the pull-based merger (with a static weight) and the TimeTrigger behind
+        # real producers, in front of real consumers (sim/library.py)
+        from ..library import gen_library
+        sc = gen_library(tape, need_stage=True)
+        return sc
     if fam == "S":
         return gen_static(tape)
     if fam == "W":
@@ -236,6 +341,13 @@ def provider_oracles(sc, r, viol):
 
 
 def execute(sc):
+    if sc["engine"] == "G":
+        return run_wsum_grid(sc)
+    if sc["engine"] == "L":
+        from ..library import run_library
+        r = run_library(sc)
+        r["violations"] = [v for v in r["violations"] if v["oracle"] in ("lib-run-raises", "lib-value")]
+        return r
     if sc["engine"] == "S":
         return run_static(sc)
     r = run_e1(sc)
@@ -270,6 +382,6 @@ def execute(sc):
 
 
 def known_sig(sc, v):
-    if sc.get("engine") == "S":
+    if sc.get("engine") in ("S", "L", "G"):
         return None
     return e1_known_sig(sc, v)
